@@ -4,14 +4,16 @@
 
    [run ops]  : the observations of the pointer model (XList/Model.v) after every operation: forward
                 walk from Front via Next, backward walk from Back via Prev, Len, the Values along the
-                forward walk, "Front has no Prev", "Back has no Next", "the removed node is isolated".
+                forward walk, "Front has no Prev", "Back has no Next", "every handle handed out so far that
+                the forward walk does not reach has neither Prev nor Next".
    [srun ops] : the same observations computed from the ideal sequence (XList/Spec.v): l, rev l,
                 length l, the Values given at creation, true, true, true - and never a panic. *)
 From Juniper Require Import Common.Base XList.Model XList.Spec XList.Proofs.
 
 (* MAIN: after every operation of every valid history both walks are the ideal sequence and its mirror
-   image, Len is its length, the ends have no outer neighbour, Values are those given at creation, a
-   removed node has neither neighbour, and no nil pointer is ever dereferenced. *)
+   image, Len is its length, the ends have no outer neighbour, Values are those given at creation, every
+   node outside the list (removed by Remove or dropped by Clear) has neither neighbour, and no nil
+   pointer is ever dereferenced (nor does the loop of Clear run out of fuel). *)
 Theorem C06_refinement : forall ops, valid_ops ops = true -> run ops = srun ops.
 Proof. exact xlist_refinement. Qed.
 
@@ -63,10 +65,43 @@ Theorem C06_removed_node_isolated : forall ops n,
     prev_of H n = None /\ next_of H n = None /\ ~ In n (sl (srun_state (ops ++ [LRemove n]))).
 Proof. exact xlist_removed_isolated. Qed.
 
+(* every handle handed out so far that is not in the ideal sequence - removed by Remove or dropped by
+   Clear, at any earlier time, whatever was done to the list since (re-growth after Clear included) -
+   has neither neighbour.  Subsumes C06_removed_node_isolated. *)
+Theorem C06_detached_nodes_isolated : forall ops,
+    valid_ops ops = true ->
+    forall h, (h < length (heap (run_state ops)))%nat -> ~ In h (sl (srun_state ops)) ->
+              prev_of (heap (run_state ops)) h = None /\ next_of (heap (run_state ops)) h = None.
+Proof. exact xlist_detached_isolated. Qed.
+
+(* "handed out so far" is the same number in both layers: the next fresh handle *)
+Theorem C06_fresh_handle : forall ops,
+    valid_ops ops = true -> length (heap (run_state ops)) = length (svals (srun_state ops)).
+Proof. exact xlist_fresh. Qed.
+
+(* Clear as it was before the repair of xlist.go ({ l.front = nil; l.back = nil; l.size = 0 }, kept in
+   the model as [clear_original] / [run_original]) does NOT have that property:
+     forall ops, valid_ops ops = true ->
+     forall h, h < length (heap (run_state_original ops)) -> ~ In h (sl (srun_state ops)) ->
+       prev_of (heap (run_state_original ops)) h = None /\ next_of (heap (run_state_original ops)) h = None
+   fails on PushBack, PushBack, PushBack, Clear for the dropped node 0, which still points at node 1; the
+   harness's flag after that Clear is false.  With the repaired Clear the same node is isolated. *)
+Theorem C06_clear_original_refuted :
+  exists ops h,
+    valid_ops ops = true /\
+    (h < length (heap (run_state_original ops)))%nat /\
+    mem h (sl (srun_state ops)) = false /\
+    next_of (heap (run_state_original ops)) h <> None /\
+    map o_removed_isolated (run_original ops) = [true; true; true; false] /\
+    next_of (heap (run_state ops)) h = None /\
+    map o_removed_isolated (run ops) = [true; true; true; true].
+Proof. exact clear_original_refuted. Qed.
+
 (* non-vacuity: a valid history that uses every operation, node == mark, node and mark adjacent in both
-   orders and at both ends, a single-element list, and re-growth after Clear and after emptying *)
+   orders and at both ends, a single-element list, re-growth after Clear (of an empty, a 4-element and a
+   3-element list) and after emptying; at its end 13 of the 15 handles are outside the list *)
 Theorem C06_precondition_satisfiable :
-    valid_ops example_ops = true /\ length (run example_ops) = 35%nat.
+    valid_ops example_ops = true /\ length (run example_ops) = 42%nat.
 Proof. exact (conj example_valid (proj2 example_runs)). Qed.
 
 Print Assumptions C06_refinement.
@@ -77,4 +112,7 @@ Print Assumptions C06_values_at_creation.
 Print Assumptions C06_values_untouched.
 Print Assumptions C06_handles_stable.
 Print Assumptions C06_removed_node_isolated.
+Print Assumptions C06_detached_nodes_isolated.
+Print Assumptions C06_fresh_handle.
+Print Assumptions C06_clear_original_refuted.
 Print Assumptions C06_precondition_satisfiable.
